@@ -24,6 +24,12 @@ def numba_minmax_ignores_nan(case, clause, detail):
     return any(any(_isnan(v) for v in m) and not all(_isnan(v) for v in m) for m in _groups(case).values())
 
 
+def blockwise_with_dask_labels(case, clause, detail):
+    """method='blockwise' with chunked (dask) labels: internal TypeError/ValueError instead of a result or a clean refusal"""
+    return case.get("method") == "blockwise" and bool(case.get("by_dask")) and clause.startswith("exception:")
+
+
 MATCHERS = {
+    "blockwise_with_dask_labels": blockwise_with_dask_labels,
     "numba_minmax_ignores_nan": numba_minmax_ignores_nan,
 }
